@@ -237,7 +237,7 @@ func c11ConcSim(r *simcore.Run) {
 	sch.Quiet = true
 	// a mechanism may make callers wait for each other with primitives of its own (request coalescing and the like):
 	// such a caller is set aside until it comes back, the others go on
-	sch.StallTimeout = 150 * time.Millisecond
+	sch.StallTimeout = time.Second
 	net.Hook = func(c *simnet.Call) { simsync.Yield("net:" + c.Host) }
 	for t := 0; t < nTasks; t++ {
 		t := t
